@@ -540,3 +540,19 @@ Example exl_counts :
   /\ sess_recount (run (empty_table 0) exl_ops) 12 = 1
   /\ snd (step (run (empty_table 0) (firstn 2 exl_ops)) (nth 2 exl_ops StartDeferral)) = true.
 Proof. vm_compute. repeat split. Qed.
+
+(* Table::remove unwraps route_stats[addr][family]: whenever it finds the path
+   to remove, the statistics entry exists *)
+Lemma C15_remove_finds_stats :
+  forall shard ops s net rpid d removed,
+    let t := run (empty_table shard) ops in
+    alookup net (t_dests t) = Some d -> find (same_key s rpid) (d_entries d) = Some removed ->
+    alookup (s_addr s) (t_stats t) <> None.
+Proof.
+  intros shard ops s net rpid d removed t Hd Ef Hnone.
+  pose proof (C15_stats_eq_recount shard ops (s_addr s)) as H. cbv zeta in H. fold t in H. rewrite Hnone in H.
+  destruct H as [H _]. rewrite recv_recount_cr in H.
+  apply find_some in Ef as [Hin Hk]. apply alookup_in in Hd.
+  pose proof (sumd_ge_in (hr (s_addr s)) _ net d Hd) as Hge. fold (cr (s_addr s) t) in Hge.
+  assert (hr (s_addr s) d = 1) by (apply (hrl_one_in _ _ removed Hin), (same_key_from _ _ _ Hk)). lia.
+Qed.
